@@ -29,8 +29,9 @@ def main():
                 print(pretty.dump(f))
         return 0
     prop = a.prop.upper()
+    config = os.environ.get("RWS_CONFIG", "dev")
     try:
-        ctx = Ctx(a.tier)
+        ctx = Ctx(a.tier, config=config)
     except Exception as e:  # extraction failed: fail closed
         traceback.print_exc()
         return framework.fail_closed(prop, a.tier, "facts-unavailable: %s" % str(e)[:500])
@@ -44,8 +45,9 @@ def main():
     except Exception as e:
         traceback.print_exc()
         return framework.fail_closed(prop, a.tier, "checker-error: %s: %s" % (type(e).__name__, str(e)[:300]))
-    if rc == 0 and a.tier == "thorough" and hasattr(mod, "thorough"):
-        rc = mod.thorough(ctx)
+    if rc == 0 and a.tier == "thorough" and not os.environ.get("RWS_NO_THOROUGH"):
+        from analysis import thorough
+        rc = thorough.run(prop)
     return rc
 
 
